@@ -25,10 +25,7 @@ struct nv_gmodel { struct nv_bias m_bias; struct nv_wlist m_wlearners; struct nv
 
 #define NV_ID_ALL 3
 #define NV_ID_FIT 4
-/* bit-pattern identity of doubles (== identifies -0.0 and 0.0, the congruence of the uninterpreted operations does not) */
-union nv_bits { double d; uint64_t u; };
-#define NV_BITS(x) (((union nv_bits){ .d = (x) }).u)
-#define NV_IDENT(a, b) (NV_BITS(a) == NV_BITS(b))
+/* bit-pattern identity of doubles: NV_IDENT of types.h */
 
 /* ---- ghosts */
 int64_t nv_folds, nv_opt_trial;          /* what fit_result.folds() / optimum_trial() returned */
